@@ -511,7 +511,7 @@ def main():
     Q = Enc()
 
     # ---- 1. is_counter_clockwise and the constructor's normalisation
-    n_ring = 150 if quick else 3000
+    n_ring = 250 if quick else 3000
     fixed_rings = [
         [(0.0, 0.0, None), (1.0, 0.0, None), (1.0, 1.0, None), (0.0, 1.0, None), (0.0, 0.0, None)],
         [(0.0, 0.0, None), (0.0, 1.0, None), (1.0, 1.0, None), (1.0, 0.0, None)],
@@ -549,7 +549,7 @@ def main():
 
     # ---- 2. export of every kind; import of what was exported; the property itself
     kinds = ['point', 'line', 'poly', 'mpoint', 'mline', 'mpoly', 'box']
-    per_kind = 24 if quick else 500
+    per_kind = 40 if quick else 500
     specs = []
     for kind in kinds:
         for i in range(per_kind):
@@ -613,7 +613,7 @@ def main():
                 pyviol.append((m, cl, d))
 
     # ---- 4. collections
-    n_coll = 12 if quick else 200
+    n_coll = 24 if quick else 200
     for n in range(n_coll):
         members = [rand_spec(rng, rng.choice(kinds)) for _ in range(rng.randint(0 if n else 1, 4))]
         track = n % 3 == 2
@@ -739,7 +739,7 @@ def main():
             nontrivial.add(('edge', n))
 
     # ---- 6. `==` as used in the round-trip statement
-    n_eq = 40 if quick else 600
+    n_eq = 90 if quick else 600
     eq_pairs = []
     for n in range(n_eq):
         kind = rng.choice(['point', 'line', 'poly', 'poly', 'mpoint', 'mline', 'mpoly'])
